@@ -7,6 +7,7 @@ import (
 	"github.com/google/uuid"
 
 	"github.com/aptpod/iscp-go/message"
+	"github.com/aptpod/iscp-go/wire"
 )
 
 var randomString = func() string {
@@ -200,21 +201,33 @@ func (c *Conn) call(ctx context.Context, msg *message.UpstreamCall) (*message.Up
 	c.upstreamCallAckCh[msg.CallID] = ch
 	c.upstreamCallAckMu.Unlock()
 
-	err := c.send(ctx, func(ctx context.Context) error {
-		c.wireConnMu.Lock()
-		defer c.wireConnMu.Unlock()
-		return c.wireConn.SendUpstreamCall(ctx, msg)
-	})
-	if err != nil {
-		return nil, err
-	}
-	select {
-	case <-ctx.Done():
-		if c.state.Is(connStatusClosed) {
-			return nil, errors.ErrConnectionClosed
+	for {
+		var wireConn *wire.ClientConn
+		err := c.send(ctx, func(ctx context.Context) error {
+			c.wireConnMu.Lock()
+			defer c.wireConnMu.Unlock()
+			wireConn = c.wireConn
+			return c.wireConn.SendUpstreamCall(ctx, msg)
+		})
+		if err != nil {
+			return nil, err
 		}
-		return nil, ctx.Err()
-	case ack := <-ch:
-		return ack, nil
+		select {
+		case <-ctx.Done():
+			if c.state.Is(connStatusClosed) {
+				return nil, errors.ErrConnectionClosed
+			}
+			return nil, ctx.Err()
+		case ack := <-ch:
+			return ack, nil
+		case <-wireConn.Closed():
+			// The connection was lost before the ack arrived: the call may never have reached the
+			// broker. Send it again once the connection is back (send waits for that).
+			select {
+			case ack := <-ch:
+				return ack, nil
+			default:
+			}
+		}
 	}
 }
